@@ -130,12 +130,17 @@ func execGreedy(g *graph.DGraph, params graph.Params) {
 	}
 
 	// reverse edges that point right
+	// collect them first: Reverse edits n.Out in place, so reversing while ranging over it skips edges
+	var rev []*graph.Edge
 	for _, n := range g.Nodes {
 		for _, e := range n.Out {
 			if p.arcdiag[n] > p.arcdiag[e.To] {
-				e.Reverse()
+				rev = append(rev, e)
 			}
 		}
+	}
+	for _, e := range rev {
+		e.Reverse()
 	}
 }
 
